@@ -854,6 +854,8 @@ pub struct World<'v> {
     pub cur_args: VecDeque<usize>,
     /// operations dropped by a chosen cancellation: (index into `program`, kind, request number)
     pub cancelled: Vec<(usize, OpK, Option<u8>)>,
+    /// program indices of cancelled disconnect() calls of which the transport had accepted nothing
+    pub clean_disconnects: Vec<usize>,
     pub results: Vec<(OpK, Res)>,
     /// session bookkeeping when the benign continuation ended: (publish-quiescent, retained,
     /// awaiting PUBCOMP, queued acknowledgements, inbound QoS 2 identifiers pending, send quota)
@@ -1544,6 +1546,9 @@ impl<'v> World<'v> {
                         let m = &mut sh.oracle.conns[id];
                         if m.disconnect_done || (m.cur_off > 0 && m.cur.as_ref().is_some_and(|p| p[0] == 0xE0)) {
                             m.disc_cancelled = true;
+                        } else {
+                            drop(sh);
+                            self.clean_disconnects.push(self.program.len() - 1);
                         }
                         Res::Cancelled
                     }
@@ -2009,6 +2014,7 @@ pub fn run_inner(
         script: script.map(|v| v.into()),
         cur_args: VecDeque::new(),
         cancelled: Vec::new(),
+        clean_disconnects: Vec::new(),
         results: Vec::new(),
         final_state: None,
         sh: sh.clone(),
@@ -2113,12 +2119,12 @@ pub fn run_inner(
     let cancelled_without_trace: Vec<bool> = world
         .cancelled
         .iter()
-        .map(|(_, _, seq)| match seq {
+        .map(|(idx, _, seq)| match seq {
             Some(seq) => {
                 let rq = &shb.oracle.reqs[*seq as usize];
                 !rq.enq && !rq.offered
             }
-            None => false,
+            None => world.clean_disconnects.contains(idx),
         })
         .collect();
     let tx: Vec<Vec<u8>> = shb.conns.iter().map(|c| c.tx_log.clone()).collect();
